@@ -8,3 +8,12 @@ CLAIMED["C20"] = (
     "Trusted: vf's encoding of the Python subset (cross-checked per run by executing the same contracts natively on generated inputs), "
     "z3/cvc5, pow2 instance axioms, A-float. The str branch of value_to_int (regex + int(s, base)) is outside the subset: bounded only.",
     "DESIGN.md 7 C20")
+CLAIMED["C09"] = (
+    "Each wrapper in spsdk/crypto (AES-ECB/CBC/CTR/XTS/CCM, key wrap, SM4-CBC, hash, HMAC, CMAC, HKDF, CRC), Counter, the key-store "
+    "derivations and the SB3.1 KDF is proved equal to a term over the primitive symbols (key, IV, data passed unchanged to the right "
+    "algorithm/mode; zero padding exactly where documented; SPSDKError exactly for illegal sizes; counter advances exactly, 32-bit field wraps); "
+    "decrypt(encrypt(m)) = m with defaults on both sides follows as lemmas over those contracts and the inverse laws of the primitives. "
+    "That the primitives equal their standards is NOT proved (external C code): bounded known-answer vectors only.",
+    "Trusted: the assumed models of `cryptography`/`crcmod` calls in vf/extmodels.py (which exception for which argument size; results as "
+    "uninterpreted functions with length laws and D(E(x)) = x), A-enc, A-smt.",
+    "DESIGN.md 7 C09")
